@@ -72,6 +72,7 @@ class Emitter:
         self.callees = {}  # cname -> description
         self.unit_names = set()
         self.news = {}
+        self.const_needed = set()
         self.field_inits = {}
         self.callflag = False
 
@@ -145,6 +146,11 @@ class Emitter:
     def note_proto(self, cname, ret, params, src, variadic=False):
         old = self.protos.get(cname)
         new = (ret, tuple(params), variadic)
+
+        def canon(p):  # size_t and unsigned long are the same C type on the LP64 target: not a collision
+            return (re.sub(r"\bsize_t\b", "unsigned long", p[0]), tuple(re.sub(r"\bsize_t\b", "unsigned long", x) for x in p[1]), p[2])
+        if old and canon(old[:3]) == canon(new):
+            return
         if old and (old[0], old[1], old[2]) != new:
             raise Unsupported("C name collision for %s: %s vs %s (add a rename in the spec config)" %
                               (cname, old[:3], new))
@@ -169,7 +175,44 @@ class Emitter:
         m = getattr(self, "e_" + k, None)
         if m is None:
             raise Unsupported("expression kind %s" % k)
+        if k in ("CallExpr", "CXXMemberCallExpr"):
+            return self.nested_call(n, m)
+        if k == "ConditionalOperator" or (k == "BinaryOperator" and n.get("opcode") in ("&&", "||")):
+            self.lazy_depth = getattr(self, "lazy_depth", 0) + 1
+            try:
+                return m(n)
+            finally:
+                self.lazy_depth -= 1
         return m(n)
+
+    def nested_call(self, n, m):
+        """A call to a non-model function that is evaluated INSIDE another call (as its argument), e.g.
+        memcpy(f(x), src, n): the exception model's `if (vf_exc) return` after the whole statement would come too
+        late (the outer call would run on f's dummy return value, whereas the real program has already aborted).
+        Such an inner call is hoisted into a temporary followed by the propagation test. Not done under ?: && ||
+        (evaluation there is conditional) nor for calls returning references/void/structs."""
+        depth = getattr(self, "call_depth", 0)
+        self.call_depth = depth + 1
+        before = self.callflag
+        self.callflag = False
+        try:
+            e = m(n)
+        finally:
+            self.call_depth = depth
+        mine, self.callflag = self.callflag, (before or self.callflag)
+        if not (mine and depth > 0 and getattr(self, "lazy_depth", 0) == 0 and self.cfg.get("exceptions", True)):
+            return e
+        if n.get("valueCategory") != "prvalue" or e.startswith("(*"):
+            return e
+        try:
+            ct = self.ctype(n)
+        except Unsupported:
+            return e
+        if ct == "void" or (ct.startswith("struct ") and not ct.endswith("*")):
+            return e
+        tmp = self.new_tmp(ct, e)
+        self.pre.append("if (vf_exc) " + self.ret_zero())
+        return tmp
 
     def e_transparent(self, n):
         return self.E(n["inner"][0])
@@ -270,6 +313,10 @@ class Emitter:
 
     def global_name(self, n, rd):
         name = rd["name"]
+        if name in self.cfg.get("const_globals", {}):
+            # compile-time constant of the real code: evaluated by the real compiler (cxx2c.eval_constants)
+            self.const_needed.add(name)
+            return "VFC_" + ident(name)
         gmap = self.cfg.get("globals", {})
         cn = gmap.get(name, ident(name))
         ct = self.ctype((rd.get("type") or {}).get("desugaredQualType") or rd["type"]["qualType"]) \
@@ -335,8 +382,9 @@ class Emitter:
             return "((%s)%s)" % (self.ctype(n), self.paren(self.E(inner)))
         if ck in ("DerivedToBase", "UncheckedDerivedToBase"):
             sct, dct = self.try_ctype(inner), self.try_ctype(n)
-            if sct is not None and sct == dct and (not sct.startswith("struct ") or sct.endswith("*")):
-                return self.E(inner)  # library class and its base both mapped to the same scalar (iterators)
+            if sct is not None and sct == dct and (not sct.startswith("struct ") or sct.endswith("*") or
+                                                   sct.startswith("struct vf_")):
+                return self.E(inner)  # library class and its base mapped to the same scalar / same model type
             return self.derived_to_base(n, inner)
         if ck == "BaseToDerived":
             return self.base_to_derived(n, inner)
@@ -448,11 +496,32 @@ class Emitter:
         op = n["opcode"]
         if op == ",":
             return "(%s, %s)" % (self.E(a), self.E(b))
+        if op == "&&" and self.is_log_isenabled(n):
+            # XBT_LOG_ISENABLED(cat, prio): run-time logging configuration = unconstrained environment flag
+            self.globals["vf_log_enabled"] = "_Bool"
+            return "vf_log_enabled"
         if op == "=" and self.try_ctype(a) and self.try_ctype(a).startswith("struct vf_str"):
             pass
         return "%s %s %s" % (self.paren(self.E(a)), op, self.paren(self.E(b)))
 
     e_CompoundAssignOperator = e_BinaryOperator
+
+    @staticmethod
+    def is_log_isenabled(n):
+        """structural match of _XBT_LOG_ISENABLEDV: (prio >= STATIC && (cat.initialized || _xbt_log_cat_init(..))) && prio >= cat.threshold"""
+        def noparen(x):
+            while x.get("kind") in ("ParenExpr", "ImplicitCastExpr"):
+                x = x["inner"][0]
+            return x
+        l = noparen(n["inner"][0])
+        if l.get("kind") != "BinaryOperator" or l.get("opcode") != "&&":
+            return False
+        o = noparen(l["inner"][1])
+        if o.get("kind") != "BinaryOperator" or o.get("opcode") != "||":
+            return False
+        c = noparen(o["inner"][1])
+        return c.get("kind") == "CallExpr" and \
+            skip(c["inner"][0]).get("referencedDecl", {}).get("name") == "_xbt_log_cat_init"
 
     def e_CXXRewrittenBinaryOperator(self, n):
         return self.E(n["inner"][0])
@@ -711,6 +780,13 @@ class Emitter:
         r = self.lib.operator_call(self, n, name, args, fnt, rd) if self.lib else None
         if r is not None:
             return r
+        if rd.get("kind") == "CXXMethodDecl" and args:
+            # overloaded operator of a (SimGrid) class: an ordinary method call on the first operand
+            ct0 = self.try_ctype(args[0])
+            if ct0 and ct0.startswith("struct ") and not ct0.endswith("*") and not ct0.startswith("struct vf_"):
+                tag = ct0[len("struct "):]
+                self.structs.setdefault(tag, {})
+                return self.inferred_call(n, tag, name, self.addr_of(args[0]), args[1:])
         raise Unsupported("operator call %s on %s" % (name, qt(args[0]) if args else "?"))
 
     def e_CXXConstructExpr(self, n):
